@@ -162,3 +162,26 @@ PROPS["C15"] = dict(
                  quick=dict(cases=1500, size=100, enum=1, procs=1), thorough=dict(cases=10000, size=100, enum=2, procs=1)) for i, m in enumerate(_MASKS)],
     min_evaluations=dict(quick=300000, thorough=1500000),
 )
+
+PROPS["C06"] = dict(
+    title="Spec-valid files from another writer decode to the values stored in them",
+    level="exploration",
+    design_ref="DESIGN.md section 8, C06",
+    level_text=("An independent Parquet writer (ref/parquet_writer.hpp, written from the format specification, compressors from libsnappy/zlib/libzstd/liblz4) "
+                "produces generated files - flat and nested schemas with optional/repeated ancestors, all eight physical types, PLAIN and dictionary pages "
+                "(PLAIN_DICTIONARY/RLE_DICTIONARY, mixed with PLAIN fallback pages), 1..6 pages per chunk, hybrid level/index runs from a run planner, "
+                "dictionary_page_offset present or absent, wider-than-needed index widths, unused dictionary entries, five codecs, CRCs, page/chunk statistics, "
+                "unknown Thrift fields in footer and page headers - and carquet must return exactly the stored levels and dense values, in all three I/O "
+                "modes, read whole and in small batches. One unsupported feature injected (data page v2, four other encodings, BIT_PACKED levels, "
+                "LZO/BROTLI/unknown codec) must yield an error or the correct data, never different data. Exploration only."),
+    level_note="trusts ref/parquet_writer.hpp as spec-conformant; nested columns are generated per leaf from the Dremel validity rule on (rep, def) sequences rather than by shredding common records, which is all a column reader can observe",
+    technique="property-based differential testing (rapidcheck): independent reference writer with generated layouts vs carquet's reader; negative feature injection",
+    rule=("case = (file spec, I/O mode, batch size[, unsupported feature + target]). Non-trivial: the file uses a feature carquet's own writer never emits "
+          "(dictionary page, nested levels, INT96, bit-packed/cut level runs, unknown Thrift fields) or carries an injected unsupported feature. "
+          "Values are compared densely: the k-th entry at the maximum definition level owns the k-th value (documented writer contract and "
+          "examples/nullable_columns.c)."),
+    assumptions=["nullable reads return non-null values densely packed from slot 0 of the caller's buffer (carquet.h write_batch contract, examples/nullable_columns.c)",
+                 "value buffers are sized max_values x slot size from the schema node's physical type / type length"],
+    engines=[pbt("c06_foreign", libs=["rapidcheck", "snappy", "lz4"], quick=dict(cases=900, size=60, procs=8), thorough=dict(cases=12000, size=100, procs=16))],
+    min_evaluations=dict(quick=5000, thorough=150000),
+)
